@@ -19,7 +19,7 @@ ASSUMPTIONS = ["line-granular serialisation; threading primitives replaced by in
                "another action, or before the loop thread existed (DESIGN.md §4 rule 4)",
                "the abstract run-loop model over all interleavings mentioned by the quantifier is not claimed (out of family)"]
 REQUIRED = {"decided_runs": {"quick": 600, "thorough": 6000}, "preemptive_switches": {"quick": 500, "thorough": 5000},
-            "dfs_complete_scenarios": {"quick": 4, "thorough": 5}, "actions_started": {"quick": 1500, "thorough": 15000},
+            "dfs_complete_scenarios": {"quick": 4, "thorough": 7}, "actions_started": {"quick": 1500, "thorough": 15000},
             "cancels_decided": {"quick": 100, "thorough": 1000}, "post_dispose_schedules": {"quick": 40, "thorough": 400},
             "clock_advances": {"quick": 200, "thorough": 2000}}
 UNIT_TIMEOUT = {"quick": 240, "thorough": 3000}
@@ -280,7 +280,11 @@ def units(tier: str, seed: int) -> list[dict]:
     q = tier == "quick"
     us: list[dict] = []
     for hi, _ in enumerate(HAND):
-        us.append({"mode": "dfs", "hand": hi, "bound": 1 if q else 2, "seed": seed, "max_runs": 2500 if q else 60000})
+        # bound 1 is enumerated completely in both tiers; the thorough tier adds bound 2 with a run cap (the evidence names the
+        # scenarios whose enumeration was complete: dfs_complete / dfs_truncated)
+        us.append({"mode": "dfs", "hand": hi, "bound": 1, "seed": seed, "max_runs": 2500 if q else 20000})
+        if not q:
+            us.append({"mode": "dfs", "hand": hi, "bound": 2, "seed": seed, "max_runs": 60000})
     nprog, per = (24, 2) if q else (240, 6)
     for lo in range(0, nprog, per):
         us.append({"mode": "random", "progs": [lo, lo + per], "runs": 40 if q else 300, "seed": seed})
